@@ -49,6 +49,11 @@ func prewriteMutation(db *NoKV.DB, reader *Reader, req *pb.PrewriteRequest, mut 
 	if lock != nil && lock.Ts != req.StartVersion {
 		return keyErrorLocked(key, lock)
 	}
+	if lock != nil {
+		// Duplicate prewrite of a key this transaction already holds: keep the
+		// existing lock (its min_commit_ts may have been pushed since).
+		return nil
+	}
 	if write, commitTs, err := reader.MostRecentWrite(key); err != nil {
 		return keyErrorRetryable(err)
 	} else if write != nil && commitTs >= req.StartVersion {
